@@ -92,6 +92,31 @@ class Bounds:
                 break
             e = pn(S, d)
             truth = (taken == "otherwise") if vals == [0] else (bool(taken) if taken != "otherwise" else None)
+            if e[0] == "discr" and e[1][0] == "call" and e[1][1].endswith("::try_from") and len(e[1][2]) == 1 and taken != "otherwise":
+                # uN::try_from(x): Ok iff x <= uN::MAX
+                import re as _re
+                mt = _re.search(r"for (u8|u16|u32|u64)>::try_from$|^<(u8|u16|u32|u64) as ", e[1][1])
+                vn = S.variant(d, taken)
+                if mt and vn in ("Ok", "Err"):
+                    w_ = WIDTH[mt.group(1) or mt.group(2)]
+                    if vn == "Ok":
+                        self._hi(e[1][2][0], (1 << w_) - 1)
+                    else:
+                        self._lo(e[1][2][0], 1 << w_)
+                continue
+            if e[0] != "bin" and e[0] != "discr" and vals != [0] and all(isinstance(v, int) for v in vals):
+                # `match x { 0 | 1 => .., _ => .. }` on an unsigned integer: an arm pins the value, the fall-through excludes the
+                # listed values (a lower bound when they are 0..k)
+                if taken != "otherwise" and isinstance(taken, int):
+                    self._lo(e, taken)
+                    self._hi(e, taken)
+                elif taken == "otherwise":
+                    k_ = 0
+                    while k_ in vals:
+                        k_ += 1
+                    if k_ > 0:
+                        self._lo(e, k_)
+                continue
             if truth is None or e[0] != "bin":
                 continue
             op, a, b = e[1], e[2], e[3]
@@ -124,9 +149,13 @@ class Bounds:
 
     def _lo(self, e, v):
         self.lo[e] = max(self.lo.get(e, v), v)
+        if e[0] not in ("const",) and (C(v), e, False) not in self.rel:
+            self.rel.append((C(v), e, False))  # also as a linear fact (the expression may be rewritten, e.g. len(window))
 
     def _hi(self, e, v):
         self.hi[e] = min(self.hi.get(e, v), v)
+        if e[0] not in ("const",) and (e, C(v), False) not in self.rel:
+            self.rel.append((e, C(v), False))
 
 
 LENOF = [None]
@@ -946,7 +975,69 @@ def static_len(F, b, e, B, envs, tyof):
     return tuple(out)
 
 
+def _closure_item_component(F, b, e):
+    """For a closure body b passed to `iter.map(closure)` / `for_each` / `fold` in its parent: the iterator component that the
+    projection e of the closure's item parameter denotes, else None."""
+    if b.kind != "Closure":
+        return None
+    idx = []
+    x = e
+    while x[0] == "field":
+        idx.append(x[2])
+        x = x[1]
+    idx.reverse()
+    if x[0] == "deref":
+        x = x[1]
+    if x[0] != "param" or x[1] < 2:
+        return None
+    parent = F.fn(b.d.get("parent") or "")
+    if parent is None:
+        return None
+    it = None
+    item_param = None
+    try:
+        ppaths = sym.Sym(parent).paths(max_paths=64)
+    except sym.PathLimit:
+        return None
+    for p in ppaths:
+        for c in p.calls:
+            nm = c[1].rsplit("::", 1)[-1]
+            if nm in ("map", "for_each", "fold", "filter_map", "all", "any") and len(c[2]) >= 2:
+                clo = n(c[2][-1])
+                if find_all(clo, lambda y: y[0] == "agg" and isinstance(y[1], str) and y[1] == "closure:" + b.path):
+                    it = n(c[2][0])
+                    # map/for_each: closure(self, item); fold: closure(self, acc, item)
+                    item_param = 3 if nm == "fold" else 2
+    if it is None or x[1] != item_param:
+        return None
+    comp = iter_components(it)
+    if not comp or len(comp) != 1:
+        return None
+    c = comp[0]
+    for i in idx:
+        if c[0] == "zip" and i in (0, 1):
+            c = c[1 + i]
+        else:
+            return None
+    return c
+
+
 def _slen(F, b, e, B, env, tyof):
+    if e[0] == "field" and e[2] in (0, 1) and e[1][0] == "call" and e[1][1].endswith(("::split_at", "::split_at_mut")) and len(e[1][2]) == 2:
+        # x.split_at(k) = (x[..k], x[k..])
+        k_ = irange(e[1][2][1], B, tyof, env)
+        if k_ is None or k_[0] != k_[1]:
+            return None
+        if e[2] == 0:
+            return k_[0]
+        total = _slen(F, b, e[1][2][0], B, env, tyof)
+        return None if total is None else total - k_[0]
+    if b.kind == "Closure":
+        c = _closure_item_component(F, b, e)
+        if c is not None and c[0] == "chunk":
+            if c[3]:
+                return c[2]
+            return None
     ic = item_component(e) if e[0] == "field" else None
     if ic is not None and ic[1] is not None and ITER[0] is not None:
         comp = iter_components(ITER[0](ic[0]))
@@ -1288,7 +1379,7 @@ def lin(e, env, depth=0):
         return lin(("call", SLICE_LEN, (e[1],)), env, depth + 1)
     if k == "call" and e[1] == SLICE_LEN and len(e[2]) == 1 and SYMLEN[0] is not None:
         x = e[2][0]
-        if x[0] in ("call", "ref", "deref", "cast") and not (x[0] == "call" and not x[1].endswith(layout.INDEX_FNS)):
+        if x[0] in ("call", "ref", "deref", "cast", "field") and not (x[0] == "call" and not x[1].endswith(layout.INDEX_FNS)):
             sl = SYMLEN[0](x, env)
             if sl is not None and sl != e:
                 return lin(sl, env, depth + 1)
@@ -1323,6 +1414,14 @@ def derived_rels(exprs):
         for x in find_all(e, lambda y: y[0] == "call" and y[1].endswith("::unwrap_or") and len(y[2]) == 2 and y[2][1] == C(0xFFFFFFFF)
                           and y[2][0][0] == "call" and y[2][0][1].endswith("::try_from") and len(y[2][0][2]) == 1):
             out.append((x, x[2][0][2][0], False))
+        # the Ok payload of uN::try_from(x) is x
+        for x in find_all(e, lambda y: y[0] == "field" and y[2] == 0 and y[1][0] == "variant" and y[1][2] == "Ok" and y[1][1][0] == "call"
+                          and y[1][1][1].endswith("::try_from") and len(y[1][1][2]) == 1):
+            out.append((x, x[1][1][2][0], False))
+            out.append((x[1][1][2][0], x, False))
+        # a truncating integer cast of an unsigned value never exceeds the value
+        for x in find_all(e, lambda y: y[0] == "cast" and y[1] == "IntToInt" and str(y[2]).startswith("u")):
+            out.append((x, x[3], False))
     return out
 
 
@@ -1386,6 +1485,12 @@ def symlen(F, b, e, env):
             v = _slen(F, b, e, B0(), env, lambda x: None)
             return C(v) if v is not None else None
         return symlen(F, b, inner, env)
+    if k == "field" and e[2] in (0, 1) and e[1][0] == "call" and e[1][1].endswith(("::split_at", "::split_at_mut")) and len(e[1][2]) == 2:
+        # x.split_at(k) = (x[..k], x[k..])
+        if e[2] == 0:
+            return e[1][2][1]
+        base = symlen(F, b, e[1][2][0], env)
+        return ("bin", "Sub", base, e[1][2][1]) if base is not None else None
     if k == "call" and e[1].endswith(layout.INDEX_FNS) and len(e[2]) == 2 and e[2][1][0] == "agg":
         rk = e[2][1][1].rsplit("::", 1)[-1]
         ops = e[2][1][2]
@@ -1436,6 +1541,9 @@ def relational(F, S, b, p, s, envs):
     if call is None:
         return None
     a = [pn(S, x) for x in call[2]]
+    if s.kind == "call" and s.what in ("split_at", "split_at_mut") and len(a) == 2:
+        a = [a[0], ("agg", "adt:core::ops::RangeTo::RangeTo", (a[1],))]
+        s = Site(s.body, s.bb, "index", "index", s.term)
     if s.kind == "index" and a[1][0] == "agg":
         rk = a[1][1].rsplit("::", 1)[-1]
         ops = a[1][2]
@@ -1469,11 +1577,12 @@ def relational(F, S, b, p, s, envs):
         ops = a[1][2]
         for env in env_list:
             L = symlen(F, b, a[0], env)
-            if L is None or rk != "RangeFrom":
+            if L is None or rk not in ("RangeFrom", "Range"):
                 return None
             rels = list(B.rel)
-            count = ("bin", "Sub", L, ops[0])
-            if not (le(ops[0], L, B, env, tyof, rels) and le(("bin", "Add", a[2], count), L, B, env, tyof, rels)):
+            end = L if rk == "RangeFrom" else ops[1]
+            count = ("bin", "Sub", end, ops[0])
+            if not (le(ops[0], end, B, env, tyof, rels) and le(end, L, B, env, tyof, rels) and le(("bin", "Add", a[2], count), L, B, env, tyof, rels)):
                 return None
         return "linear-relational-copy-within"
     return None
